@@ -186,6 +186,10 @@ def body_page(ctx, case):
     work = copy.deepcopy(pl)
     xml = ctx.must("alto_export_raises", work.to_altoxml_string, None, None, thr)
     doc = walk(xml)
+    # a second export of the same (already exported) layout is the same document
+    xml_again = ctx.must("alto_export_raises", work.to_altoxml_string, None, None, thr)
+    strip = lambda x: re.sub(r"<processingDateTime>[^<]*</processingDateTime>", "", x)
+    ctx.check(strip(xml) == strip(xml_again), "second_alto_export_differs", lambda: "case=%r" % (case,))
     # ---- expected lines --------------------------------------------------
     nt = False
     exp_blocks = []
